@@ -14,12 +14,33 @@ TraceLines == ndJsonDeserialize(TraceFile)
 VARIABLES l, verdict
 tvars == <<l, verdict>>
 
+RECURSIVE HasRegex(_)
+HasRegexSeq(ns) == \E i \in 1..Len(ns) : HasRegex(ns[i])
+HasRegex(n) ==
+    CASE n.k = "Regex" -> TRUE
+      [] n.k = "Path" -> HasRegexSeq(n.steps)
+      [] n.k \in {"Negation"} -> HasRegex(n.e)
+      [] n.k \in {"NumOp", "CmpOp", "BoolOp", "Concat", "Range", "Apply"} -> HasRegex(n.l) \/ HasRegex(n.r)
+      [] n.k = "Array" -> HasRegexSeq(n.items)
+      [] n.k = "Block" -> HasRegexSeq(n.exprs)
+      [] n.k \in {"Object", "Group"} -> (\E i \in 1..Len(n.pairs) : HasRegex(n.pairs[i][1]) \/ HasRegex(n.pairs[i][2])) \/ (n.k = "Group" /\ HasRegex(n.e))
+      [] n.k = "Lambda" -> HasRegex(n.body)
+      [] n.k \in {"Partial", "Call"} -> HasRegex(n.fn) \/ HasRegexSeq(n.args)
+      [] n.k = "Predicate" -> HasRegex(n.e) \/ HasRegexSeq(n.filters)
+      [] n.k = "Cond" -> HasRegex(n.c) \/ HasRegex(n.th) \/ HasRegex(n.el)
+      [] n.k = "Assign" -> HasRegex(n.e)
+      [] n.k = "Sort" -> HasRegex(n.e) \/ \E i \in 1..Len(n.terms) : HasRegex(n.terms[i].e)
+      [] n.k = "Transform" -> HasRegex(n.pat) \/ HasRegex(n.upd) \/ HasRegex(n.del)
+      [] OTHER -> FALSE
+
 LineVerdict(e) ==
     LET B == e.bytes
         o == e.out
         S == Parse(B)
     IN  IF o.o \notin {"ok", "err"} THEN "no;compile-" \o o.o
         ELSE IF S.ok = "abstain" THEN "inc:grammar outside JSyntax"
+        \* the validity of a (non-empty) regex pattern is decided by the engine, not by the grammar
+        ELSE IF S.ok = "yes" /\ o.o = "err" /\ o.ptype = 15 /\ HasRegex(S.ast) THEN "inc:regex pattern rejected by the engine"
         ELSE IF S.ok = "yes" /\ o.o = "err" THEN "no;parse-rejected-valid-text"
         ELSE IF S.ok = "no" /\ o.o = "ok" THEN "no;parse-accepted-invalid-text"
         ELSE IF S.ok = "yes" /\ S.ast # e.ast THEN "no;parse-tree-differs"
